@@ -7,9 +7,11 @@ import collections
 from .. import common as C
 from .. import runsuite as R
 from .. import runprops as P
+from .. import suite as S
 
 PROP = "C03"
 PROP_V = "theories/props/C03.v"
+MODEL_AREAS = ('front', 'tc', 'run', 'compat')
 
 
 def run(b, ps, tier, seed):
@@ -47,12 +49,41 @@ def run(b, ps, tier, seed):
                 if len(violations) < 5:
                     violations.append(P.violation(PROP, "prints-differ", "printed multiset %s differs from %s" % (sorted(r2["prints"]), sorted(ref.elements())),
                                                   i, t, cfg, {"prints": r2["prints"]}, {"prints": sorted(ref.elements())}))
+    # the remaining hypotheses of determinism_partial (I_compat, I_err), evaluated by the extracted
+    # check (RuntimeFootprint.exec_check, sound by RuntimeCheckFacts.check_sound) on every ordered
+    # pair of enabled choices at every configuration the model visits, per mode and schedule
+    hyp = {"configs": 0, "pairs": 0, "bad": 0, "runs": 0}
+    hyp_fail = []
+    cases = [(i, "", t) for i, t in d.programs]
+    seeds = [0, 1, 2, 3] if tier == "quick" else [0, 1, 2, 3, 4, 5, 6, 7]
+    for m in ("async", "sync"):
+        for sd in seeds:
+            res = S.run_tool(b.model, "compat-%s-%d" % (m, sd), cases, timeout=1800)
+            for i, t in d.programs:
+                f = dict(x.split("=", 1) for x in res.get(i, "").split("\t")[1:] if "=" in x)
+                if "configs" not in f:
+                    continue
+                hyp["runs"] += 1
+                hyp["configs"] += int(f["configs"])
+                hyp["pairs"] += int(f["pairs"])
+                hyp["bad"] += int(f["bad"])
+                if int(f["bad"]) > 0:
+                    hyp_fail.append((i, m, sd, int(f["bad"]), t))
+    if hyp_fail and not violations:
+        i, m, sd, nbad, t = hyp_fail[0]
+        violations.append(C.Violation("the independence hypothesis of the determinism theorem fails on a reachable configuration of accepted program %s (mode %s, model schedule %d: %d pairs)" % (i, m, sd, nbad),
+                                      {"property": PROP, "kind": "unproven", "program_id": i, "program_text": t, "input_hex": R.hexs(t), "mode": m, "monitor": 0,
+                                       "no_longer_checks": [{"what": "I_compat / I_err of determinism_partial hold on the configurations the model visits", "detail": str([(x[0], x[1], x[2], x[3]) for x in hyp_fail[:5]])}]},
+                                      found_input=False))
     if model_disagree and not violations:
         violations.append(C.Violation("the model's own schedules disagree: %s" % model_disagree[:3],
                                       {"property": PROP, "kind": "unproven", "no_longer_checks": [{"what": "model schedules agree (validation of the determinism theorem's model)", "detail": str(model_disagree[:5])}]},
                                       found_input=False))
     cov = R.coverage(d, {"np_runs_compared": np_compared, "deviations_confirmed": deviations, "cut_short_by_timer_then_ok_on_rerun": artefacts,
-                         "model_schedules_per_mode": len(next(iter(d.model.values()))["async"]) if d.model else 0})
+                         "model_schedules_per_mode": len(next(iter(d.model.values()))["async"]) if d.model else 0,
+                         "hypothesis_check": {"what": "I_compat and I_err of determinism_partial (any two distinct enabled choices independent; errors stable) evaluated by the extracted, proved-sound check on every ordered pair of enabled choices at every configuration visited by the model, modes async+sync",
+                                              "model_runs": hyp["runs"], "configurations": hyp["configs"], "pairs_evaluated": hyp["pairs"], "pairs_failing": hyp["bad"],
+                                              "programs_failing": sorted(set(x[0] for x in hyp_fail))[:10]}})
     return {"violations": violations, "known": [], "coverage": cov, "assumptions": P.COMMON_ASSUMPTIONS, "trusted_extra": P.COMMON_TRUSTED}
 
 
